@@ -4,6 +4,8 @@ package props
 
 import (
 	"fmt"
+	"sort"
+	"strings"
 	"time"
 
 	"colverif/eng"
@@ -71,10 +73,22 @@ func (s *worldState) Apply(i int, check bool) (vs []eng.Violation) {
 		}
 		if s.latent == "" {
 			s.latent = t
+		} else if !strings.Contains(s.latent, t) {
+			// several recorded defects met on the way: all are named, in a fixed order
+			parts := append(strings.Split(s.latent, " + "), t)
+			sort.Strings(parts)
+			s.latent = strings.Join(parts, " + ")
 		}
 	} else if s.latent != "" {
 		for k := range vs {
-			vs[k].Witness += " [later in a history containing: " + s.latent + "]"
+			base := vs[k].Witness
+			vs[k].Witness = base + " [later in a history containing: " + s.latent + "]"
+			// listed under any ONE of the recorded defects met on the way
+			if parts := strings.Split(s.latent, " + "); len(parts) > 1 {
+				for _, p := range parts {
+					vs[k].Alt = append(vs[k].Alt, base+" [later in a history containing: "+p+"]")
+				}
+			}
 		}
 	}
 	return vs
@@ -161,6 +175,12 @@ func applyPreset(w *model.World, preset string, seed []model.Write) {
 		w.Txn(acts, false)
 	case "two-blocks":
 		w.SeedReplay(map[uint32][]model.Write{3: seed, 16384 + 1: seed})
+	case "dense-2+1":
+		// rows 0 and 1 and the first row of the second block: after one delete, the hole is
+		// the lowest free offset, so a transaction's row markers interleave across blocks
+		// (delete in block 0, delete in block 1, insert into block 0) and the freed offset
+		// is re-used by the very next insert
+		w.SeedReplay(map[uint32][]model.Write{0: seed, 1: seed, 16384: seed})
 	default:
 		panic("unknown preset " + preset)
 	}
